@@ -38,6 +38,8 @@ var zzTables = [][]zzOp{
 	{zzH("/w/{n:word}.t", "GET"), zzH("/w/{r:\\w*}", "GET"), zzH("/v/1", "GET"), zzH("/v/{z}", "GET"), zzPCl("/v")},
 	// 7: deep backtracking: three levels of parameters with diverging tails
 	{zzH("/{a}/{b}/{c}/1", "GET"), zzH("/{a}/{b}/2", "GET"), zzH("/{a}/3", "GET"), zzH("/{a}/{b:\\d+}/{c}/4", "GET")},
+	// 8: indexed parent, a handler-less branch is pruned over two removals
+	{zzH("/m/1", "GET"), zzH("/m/2", "GET"), zzH("/m/3", "GET"), zzH("/m/4", "GET"), zzH("/m/5", "GET"), zzH("/m/6a", "GET"), zzH("/m/6b", "GET"), zzH("/m/{id}", "GET"), zzRm("/m/6a"), zzRm("/m/6b")},
 }
 
 var zzMethods = []string{"GET", "HEAD", "POST", "OPTIONS", "DELETE", "PUT", "TRACE", "", "BOGUS"}
